@@ -76,6 +76,11 @@ struct FVis {
 		{ using SA = multi::array<std::string, D, Alloc<std::string>>; SA S(v.extensions()); { L q = 0; for(auto& e : S.elements()) e = std::string(18, 'x') + std::to_string(q++); } SA S2(S); SA S3(S.rotated()); for(auto const& e : S3.elements()) mixs(e);
 			S2.reextent(make_extensions<D>(std::vector<L>(std::size_t(D), 0))); mix(std::uint64_t(S2.num_elements())); S3.clear(); mix(std::uint64_t(S3.num_elements())); { SA Z; mix(std::uint64_t(Z.num_elements())); SA Z2(std::move(S)); mix(std::uint64_t(Z2.num_elements())); mix(std::uint64_t(S.num_elements())); Z = Z2; S = std::move(Z); for(auto const& e : S.elements()) mixs(e); }
 			{ std::vector<L> ze = m.size; ze[0] = 0; SA Z0(make_extensions<D>(ze)); mix(std::uint64_t(Z0.num_elements())); Z0 = S2; SA Z1(Z0); mix(std::uint64_t(Z1.num_elements())); } }
+		// static_array's move constructor allocates and moves the ELEMENTS (element-by-element path over the user's pointer type): non-empty, trivially copyable and not, and empty
+		op("static_array-move");
+		{ using SS = multi::static_array<std::string, D, Alloc<std::string>>; SS T1(v.extensions(), std::string(20, 'm')); SS T2(std::move(T1)); for(auto const& e : T2.elements()) mixs(e); mix(std::uint64_t(T1.num_elements()));
+			using SI = multi::static_array<int, D, Alloc<int>>; SI I1(v.extensions(), 6); SI I2(std::move(I1)); for(int e : I2.elements()) mix(std::uint64_t(e)); SI I3(std::as_const(I2)); mix(std::uint64_t(I3.num_elements()));
+			std::vector<L> ze = m.size; ze[0] = 0; SS E1(make_extensions<D>(ze)); SS E2(std::move(E1)); mix(std::uint64_t(E2.num_elements())); count("op:static_array-move"); }
 		nontrivial();
 	}
 };
